@@ -87,7 +87,7 @@ def compare_model(prop, res, r, source, what="vm", check_message=False):
         return None
     if res.outcome == "error":
         if r["outcome"] != "runtime_error":
-            return Failure("%s/outcome/expected-%s-got-%s" % (prop, res.err_class, r["outcome"]),
+            return Failure("%s/outcome/expected-%s-got-%s%s" % (prop, res.err_class, r["outcome"], _diag(r)),
                            "%s: model raises %s (%s), vm outcome %s\nstdout %r\n--- source\n%s" %
                            (what, res.err_class, res.err_msg, r["outcome"], got_out[-300:], source), info)
         if got_out != exp_out:
@@ -117,8 +117,20 @@ def compare_model(prop, res, r, source, what="vm", check_message=False):
 
 
 def _cls(r):
+    if r.get("outcome") == "compile_error":
+        return _diag(r)
     c = vm_error_class(r)
     return "-" + c if c else ""
+
+
+def _diag(r):
+    """The first compile diagnostic, as part of a signature (so that shrinking cannot wander to another rejection)."""
+    if r.get("outcome") != "compile_error":
+        return ""
+    for line in (r.get("stderr") or "").split("\n"):
+        if line.startswith("error"):
+            return "/" + re.sub(r"[^A-Za-z ]", "", re.sub(r"variable \S+|'[^']*'", "", line))[:60].strip().replace(" ", "-")
+    return "/no-diagnostic"
 
 
 def diff_detail(what, exp, got, source):
